@@ -254,7 +254,8 @@ func (C19) Explore(x *kernel.Explorer, seed uint64) {
 	for i := 0; i < 4 && !x.Expired(); i++ {
 		plan := &kernel.Plan{Prop: "C19", Seed: kernel.Mix(seed, uint64(i)), Swarm: map[string]int64{
 			"chunk": int64(r.Intn(4)), "type": int64(r.Intn(4)), "policy": int64(r.Intn(4)), "env": int64(r.Intn(2)),
-			"binary": int64(r.Intn(2)), "params": int64(r.Intn(2)), "describe": int64(r.Intn(2)), "extra": int64(r.Intn(2)), "mysql": int64(r.Intn(3) / 2), "depeof": int64(r.Intn(2)), "wyield": int64(r.Intn(2))}}
+			"binary": int64(r.Intn(2)), "params": int64(r.Intn(2)), "describe": int64(r.Intn(2)), "extra": int64(r.Intn(2)), "mysql": int64(r.Intn(3) / 2), "depeof": int64(r.Intn(2)), "wyield": int64(r.Intn(2)),
+			"mixed": int64(r.Intn(4) / 3), "type2": int64(r.Intn(4)), "policy2": int64(r.Intn(4)), "valseed": int64(r.Intn(8))}}
 		n := 1 + r.Intn(4)
 		for j := 0; j < n; j++ {
 			plan.Ops = append(plan.Ops, kernel.Op{ID: j + 1, Kind: "row", A: []int64{int64(r.Intn(8))}})
@@ -308,6 +309,9 @@ func c19Decode(typ string, format int16, cell []byte) (string, error) {
 }
 
 func (C19) Run(t *testing.T, plan *kernel.Plan, keepLog bool) *kernel.Result {
+	if plan.Sw("mixed") == 1 {
+		return c19Mixed(t, plan, keepLog)
+	}
 	w := kernel.NewWorld(plan, keepLog)
 	Bubble(t, plan.Seed, func() {
 		start := time.Now()
